@@ -954,6 +954,21 @@ std::string summarize_document(Document& doc)
             os << " assign=" << etags(e.assign) << " prob=" << etags(e.prob) << "\n";
         }
     }
+    // channel priority lists: "default" is the empty expression, wherever it stands
+    for (auto& cp : doc.get_chan_priorities()) {
+        auto nm = [](const expression_t& e) -> std::string {
+            if (e.empty())
+                return "default";
+            expression_t x = e;
+            while (!x.empty() && x.get_kind() != IDENTIFIER && x.get_size() > 0)
+                x = x[0];
+            return !x.empty() && x.get_kind() == IDENTIFIER ? x.get_symbol().get_name() : std::string{"?"};
+        };
+        os << "chanprio " << nm(cp.head);
+        for (auto& [sep, e] : cp.tail)
+            os << " " << sep << " " << nm(e);
+        os << "\n";
+    }
     for (auto& p : doc.get_processes()) {
         os << "process " << p.uid.get_name() << " of " << (p.templ ? p.templ->uid.get_name() : "<null>")
            << " unbound=" << p.unbound << " prio=" << doc.get_proc_priority(p.uid.get_name().c_str()) << "\n";
